@@ -90,8 +90,12 @@ def detect(name, tier):
         rc2, out2 = sh('git -C /repo status --porcelain')
         assert out2.strip() == '', 'could not restore /repo: ' + out2
     # evidence files are rewritten by every run: refresh them from the unchanged tree
-    rc, out = sh(f'bin/check {prop} --tier quick', cwd='/verif', timeout=7200)
-    meta['detection'][tier]['clean_tree_after'] = 'OK' if rc == 0 else f'NOT OK rc={rc}: {out[-300:]}'
+    if os.environ.get('SEED_NO_RERUN'):
+        # the caller re-runs every check on the unchanged tree afterwards (round f: done in one sweep)
+        meta['detection'][tier]['clean_tree_after'] = 'checked in the sweep over the unchanged tree that followed the round'
+    else:
+        rc, out = sh(f'bin/check {prop} --tier quick', cwd='/verif', timeout=7200)
+        meta['detection'][tier]['clean_tree_after'] = 'OK' if rc == 0 else f'NOT OK rc={rc}: {out[-300:]}'
     json.dump(meta, open(os.path.join(dst, 'meta.json'), 'w'), indent=1)
     print(name, prop, json.dumps(meta['detection'][tier], indent=1))
 
